@@ -1348,9 +1348,35 @@ def translate(ctx):
             or ast.unparse(gexp.generators[0].iter) != 'self.ike_sas' or len(gexp.generators[0].ifs) != 1:
         csrc.fail(gfn, '_get_ike_sa_by_addrs generator changed shape')
     cs.atoms = {'x.my_addr == my_addr': ('my_eq', 'bool'), 'x.peer_addr == peer_addr': ('peer_eq', 'bool')}
+    # (fix 1753c24) an IKE_SA that is being replaced or closed is not handed ACQUIREs: `x.state not in (<states>)`
+    usable_states = None
+    for n_ in ast.walk(gexp.generators[0].ifs[0]):
+        if isinstance(n_, ast.Compare) and ast.unparse(n_.left) == 'x.state':
+            if len(n_.ops) != 1 or not isinstance(n_.ops[0], ast.NotIn) or not isinstance(n_.comparators[0], ast.Tuple):
+                csrc.fail(gfn, 'state filter of _get_ike_sa_by_addrs is not `x.state not in (...)`')
+            names = []
+            for e_ in n_.comparators[0].elts:
+                d_ = pyast.dotted_name(e_) or ''
+                if not d_.startswith('IkeSa.State.'):
+                    csrc.fail(gfn, 'state filter lists something that is not an IkeSa.State member')
+                names.append(d_.split('.')[-1])
+            cs.atoms[ast.unparse(n_)] = ('usable', 'bool')
+            usable_states = names
     sa_match, smty = cs.gexpr(gexp.generators[0].ifs[0], {})
     if smty != 'bool':
         csrc.fail(gfn, 'lookup condition is not boolean')
+    state_numbers = {}
+    for cls_ in ast.walk(isrc.tree):
+        if isinstance(cls_, ast.ClassDef) and cls_.name == 'State':
+            for st_ in cls_.body:
+                if isinstance(st_, ast.Assign) and isinstance(st_.value, ast.Constant):
+                    state_numbers[st_.targets[0].id] = int(st_.value.value)
+    if usable_states is None:
+        usable_expr = 'true'
+    else:
+        if any(n_ not in state_numbers for n_ in usable_states):
+            csrc.fail(gfn, f'unknown IkeSa.State member in {usable_states}')
+        usable_expr = 'negb (' + ' || '.join(f'Z.eqb st {state_numbers[n_]}' for n_ in usable_states) + ')'
     ipa = isrc.func('IkeSa.process_acquire')
     lookups = [n for n in ast.walk(ipa) if isinstance(n, ast.Call) and pyast.dotted_name(n.func) == 'next']
     want = 'next((x for x in self.configuration.protect if x.index == index))'
@@ -1392,7 +1418,9 @@ def translate(ctx):
     out.append(f'Definition acquire_index (index : Z) : Z := {idx_expr}.\n')
     out.append('(* IkeSaController._get_ike_sa_by_addrs (used by process_acquire): next(x for x in self.ike_sas if <this>);')
     out.append('   my_eq = (x.my_addr == my_addr), peer_eq = (x.peer_addr == peer_addr) *)')
-    out.append(f'Definition ike_sa_match (my_eq peer_eq : bool) : bool := {sa_match}.\n')
+    out.append('   usable = (x.state not in (...)), the states being those of ike_sa_usable *)' if False else '')
+    out.append(f'Definition ike_sa_match (my_eq peer_eq usable : bool) : bool := {sa_match}.')
+    out.append(f'Definition ike_sa_usable (st : Z) : bool := {usable_expr}.\n')
     out.append('(* IkeSa.process_acquire: next(x for x in self.configuration.protect if <this>) *)')
     out.append(f'Definition protect_match (x_index index : Z) : bool := {match_expr}.\n')
     pyast.write_if_changed(gen_path('XfrmBuild.v'), '\n'.join(out) + '\n')
